@@ -68,6 +68,7 @@ structure St where
   stats : HashMap String Nat := {}
   lreqs : Array (String × List String) := #[]       -- pending LR records (session id, tokens)
   cfEntries : Array (String × Cfg.Entry) := #[]    -- entries of the configuration file being read
+  treeLeaves : List Bytes := []                    -- leaf hashes of the stub log (TREE record)
   lastPBW : Option String := none                 -- what the last written body must parse to
   nOK : Nat := 0
   nDiv : Nat := 0
